@@ -67,7 +67,8 @@ type c15Spec struct {
 
 var (
 	c15PRMBad = []string{"404", "500", "neterr", "timeout", "badct", "badjson", "res-host", "res-suffix", "res-path", "res-scheme", "res-port", "res-empty", "res-prefix", "res-parent",
-		"as-http", "as-http-second", "as-js", "as-js-second", "as-data", "as-vbscript-second", "as-empty", "as-http-lookalike"}
+		"as-http", "as-http-second", "as-js", "as-js-second", "as-data", "as-vbscript-second", "as-empty", "as-http-lookalike",
+		"url-script:jwks_uri", "url-script:resource_documentation", "url-script:resource_policy_uri", "url-script:resource_tos_uri"}
 	c15PRMOk  = []string{"ok", "ok", "ok", "ok-2as"}
 	c15ASMBad = []string{"404", "404", "410", "500", "503", "neterr", "timeout", "badct", "badjson", "empty-object",
 		"iss-host", "iss-suffix", "iss-port", "iss-path", "iss-scheme", "iss-empty", "iss-prefix",
@@ -548,7 +549,12 @@ func (w *c15World) servePRM(req *http.Request, loc int, asked string) (*http.Res
 	case "as-empty":
 		as = []string{}
 	}
-	doc := map[string]any{"resource": resource, "authorization_servers": as, "scopes_supported": []string{"s-" + m, "read"}, "resource_name": "verif " + m}
+	doc := map[string]any{"resource": resource, "authorization_servers": as, "scopes_supported": []string{"s-" + m, "read"}, "resource_name": "verif " + m,
+		"jwks_uri": "https://rs-" + m + ".example/jwks", "resource_documentation": "https://rs-" + m + ".example/docs", "resource_policy_uri": "https://rs-" + m + ".example/policy"}
+	if f, ok := strings.CutPrefix(variant, "url-script:"); ok {
+		// any other URL member of the document with a script-capable scheme (the document is otherwise impeccable)
+		doc[f] = c15Schemes[(loc+len(asked)+len(f))%len(c15Schemes)] + "rs-" + m
+	}
 	return jsonResp(req, 200, "application/json; charset=utf-8", vh.JSON(doc)), ""
 }
 
